@@ -265,9 +265,9 @@ fn run_fault_leaf(full: &[Op], with_replica: bool, rep: &Report, stats: &Stats) 
         let mut rx = core.event_subscribe();
         let mut rx2 = core.event_subscribe();
         let w = world(&sys);
-        w.lock().unwrap().fail_at = Some(k);
+        w.lock().unwrap_or_else(|e| e.into_inner()).fail_at = Some(k);
         let out = sys.exec_real(last);
-        w.lock().unwrap().fail_at = None;
+        w.lock().unwrap_or_else(|e| e.into_inner()).fail_at = None;
         stats.add("faulted_calls", 1);
         let failed = match &out {
             Out::Err(_) => true,
@@ -316,8 +316,13 @@ fn writer_alpha(m: &SysModel) -> Vec<Op> {
     v
 }
 
-fn replica_alpha(m: &SysModel) -> Vec<Op> {
-    let mut v: Vec<Op> = replica_ops(m, false);
+fn replica_alpha(m: &SysModel, growth: u64) -> Vec<Op> {
+    // with growth: partial upgrades (to the writer's length and to one more than the replica has)
+    // and writer appends, so that several upgrade-only proofs follow one another
+    let mut v: Vec<Op> = replica_ops(m, growth > 0);
+    if growth > 0 && m.w.len() < growth {
+        v.push(Op::Append(Blk::P(1, 3)));
+    }
     // refused proofs: three representative alterations of each honest sync
     let honest: Vec<Req> = v.iter().filter_map(|o| if let Op::RSync(r) = o { Some(r.clone()) } else { None }).collect();
     for r in honest.iter().take(2) {
@@ -334,19 +339,19 @@ fn replica_alpha(m: &SysModel) -> Vec<Op> {
     v
 }
 
-fn explore(depth: usize, prefix: Vec<Op>, with_replica: bool, faults: bool, rep: &Report, stats: &Stats, outcomes: &FpSet) -> u64 {
+fn explore(depth: usize, prefix: Vec<Op>, with_replica: bool, growth: u64, faults: bool, rep: &Report, stats: &Stats, outcomes: &FpSet) -> u64 {
     // enumerate leaves over the model, distribute over threads
-    fn rec(ops: &mut Vec<Op>, m: &SysModel, depth: usize, replica: bool, out: &mut Vec<Vec<Op>>) {
+    fn rec(ops: &mut Vec<Op>, m: &SysModel, depth: usize, replica: bool, growth: u64, out: &mut Vec<Vec<Op>>) {
         if ops.len() == depth {
             out.push(ops.clone());
             return;
         }
-        let alpha = if replica { replica_alpha(m) } else { writer_alpha(m) };
+        let alpha = if replica { replica_alpha(m, growth) } else { writer_alpha(m) };
         for op in alpha {
             let mut m2 = m.clone();
             m2.apply(&op);
             ops.push(op);
-            rec(ops, &m2, depth, replica, out);
+            rec(ops, &m2, depth, replica, growth, out);
             ops.pop();
         }
     }
@@ -355,7 +360,7 @@ fn explore(depth: usize, prefix: Vec<Op>, with_replica: bool, faults: bool, rep:
         m.apply(op);
     }
     let mut leaves = vec![];
-    rec(&mut vec![], &m, depth, with_replica, &mut leaves);
+    rec(&mut vec![], &m, depth, with_replica, growth, &mut leaves);
     let idx = AtomicUsize::new(0);
     let (leaves_ref, prefix_ref) = (&leaves, &prefix);
     std::thread::scope(|s| {
@@ -386,22 +391,27 @@ pub fn run(tier: &str) -> i32 {
     let outcomes = FpSet::default();
     let mut fams = vec![];
     let d = if quick { 5 } else { 6 };
-    let n = explore(d, vec![], false, false, &rep, &stats, &outcomes);
+    let n = explore(d, vec![], false, 0, false, &rep, &stats, &outcomes);
     fams.push(json!({"family": "writer: append/batch/empty batch/clear/get held+missing+out-of-range/reopen", "depth": d, "complete_histories": n}));
     for (name, wh, depth) in [
         ("replica of 3", super::c03::shape(3, 0, None), if quick { 4 } else { 5 }),
         ("replica of 5 (block 1 cleared)", super::c03::shape(5, 0, Some(1)), if quick { 4 } else { 5 }),
     ] {
-        let n = explore(depth, wh.clone(), true, false, &rep, &stats, &outcomes);
+        let n = explore(depth, wh.clone(), true, 0, false, &rep, &stats, &outcomes);
         fams.push(json!({"family": format!("{name}: honest syncs, refused (altered) proofs, gets, reopen"), "depth": depth, "complete_histories": n}));
+    }
+    {
+        let depth = if quick { 4 } else { 5 };
+        let n = explore(depth, super::c03::shape(2, 0, None), true, 5, false, &rep, &stats, &outcomes);
+        fams.push(json!({"family": "replica of 2 with the writer growing to 5: partial and repeated upgrade-only proofs, block proofs, refused proofs, gets, reopen", "depth": depth, "complete_histories": n}));
     }
     // failed calls emit nothing: every storage operation of the last call of every history of
     // depth 1..df failing once
     let df = if quick { 3 } else { 4 };
     let mut nf = 0;
     for dd in 1..=df {
-        nf += explore(dd, vec![], false, true, &rep, &stats, &outcomes);
-        nf += explore(dd.min(if quick { 2 } else { 3 }), super::c03::shape(3, 0, None), true, true, &rep, &stats, &outcomes);
+        nf += explore(dd, vec![], false, 0, true, &rep, &stats, &outcomes);
+        nf += explore(dd.min(if quick { 2 } else { 3 }), super::c03::shape(3, 0, None), true, 0, true, &rep, &stats, &outcomes);
     }
     // five block downloads in a row: the fifth one flushes
     run_fault_leaf(
